@@ -67,6 +67,26 @@ def ensemble(rng, r):
     return dict(dims=dims, n=n, cplx=cplx, form=form, inp=inp, rhos=rhos, p=p, pk=pk, dup=dup)
 
 
+def shared_support_pair(rng, r):
+    """Two states given as density matrices that live in one common two-dimensional subspace, at least one of them mixed (the sum of the two has
+    rank two although the states are not both pure): a structured instance on which formulas for pure pairs do not apply."""
+    dims = [2, 2] if r % 3 else [2, 3]
+    big = dims[0] * dims[1]
+    cplx = bool(r % 2)
+    q, _ = np.linalg.qr(gen.rmat(rng, (big, 2), cplx))
+    if (r // 2) % 3 == 0 and dims == [2, 2]:  # the span of |00> and |11>: a Bell state against the classically correlated state
+        q = np.zeros((4, 2), dtype=complex)
+        q[0, 0] = q[3, 1] = 1
+    def inside(rank):
+        m = gen.density(rng, 2, rank, cplx)
+        return ref.herm(q @ m @ q.conj().T)
+    rhos = [inside(1), inside(2)] if (r // 4) % 2 == 0 else [inside(2), inside(2)]
+    if not cplx:
+        rhos = [x.real for x in rhos]
+    p = gen.prior(rng, 2, [0, 1][(r // 8) % 2])
+    return dict(dims=dims, n=2, cplx=cplx, form="dm", inp=[x.copy() for x in rhos], rhos=rhos, p=p, pk=int((r // 8) % 2), dup=None)
+
+
 def bell_ensemble(subset=(0, 1, 2, 3), rng=None):
     """k Bell states with uniform prior (optionally rotated by a local unitary): PPT value min(1, 2/k) (k = 4: 1/2, k = 3: 2/3, k = 2: 1)."""
     s = 1 / np.sqrt(2)
@@ -188,10 +208,10 @@ def _run_hier(ctx, spec, rng):
     from toqito.state_opt import ppt_distinguishability, symmetric_extension_hierarchy
 
     r = spec[1]
-    e = bell_ensemble() if r == 0 else ensemble(rng, r * 7 + 1)
+    e = bell_ensemble() if r == 0 else (shared_support_pair(rng, r) if r % 4 == 2 else ensemble(rng, r * 7 + 1))
     dims, n, p = e["dims"], e["n"], e["p"]
     field = "complex" if e["cplx"] else "real"
-    sig = (tuple(dims), n, e["form"], field, e["pk"], (r // 3) % 2 == 1)
+    sig = (tuple(dims), n, e["form"] + ("+shared-support" if r % 4 == 2 else ""), field, e["pk"], (r // 3) % 2 == 1)
     nt = e["cplx"] or e["form"] == "dm" or dims != [2, 2] or e["pk"] != 0
     res = _solve(ctx, ppt_distinguishability, _fresh(e), [1], list(dims), list(p))
     ppt = None if res is None else float(np.real(res[0]))
